@@ -37,7 +37,10 @@ where
         Some(field::Value::Array(field::value::Array::String(values))) => {
             write_string_array_value(writer, values)
         }
-        _ => todo!("unhandled INFO field value: {:?}", value),
+        None => Err(io::Error::new(
+            io::ErrorKind::InvalidInput,
+            "unsupported info field value: missing value",
+        )),
     }
 }
 
